@@ -101,12 +101,21 @@ def cases(tier, r):
     args, kwargs = argstore.gen_init(r, sig, fresh, malformed=0.0, allow_tv=True)
     ops = argstore.gen_tag_ops(r, sig, fresh, r.randint(1, 8))
     ops = [o for o in ops if o[0] not in ('update_callable', 'copy_with', 'suspend', 'resume', 'enter_suspend', 'exit_suspend')]
+    kind = r.choice(KINDS)
     yield 'flat', {'p': 'argstore', 'sig': sig, 'args': args, 'kwargs': kwargs, 'ops': ops,
-                   'kind': r.choice(KINDS)}
+                   'kind': kind,
+                   # callables that are OBJECTS (a callable instance, a bound classmethod, a partial
+                   # object): a copy configures the very same callable
+                   # (the harness's object callables are made on the fly and cannot be pickled by reference)
+                   'species': 'function' if kind == 'pickle' else
+                   r.choice(['function', 'function', 'function', 'callable_instance', 'classmethod', 'partial'])}
   # stage B: whole DAGs
   for _ in range(500 if tier == 'quick' else 8000):
     yield 'dag', {'graph': True, 'seed': r.getrandbits(48), 'size': r.choice([3, 6, 10]),
                   'kind': r.choice(KINDS)}
+  for _ in range(60 if tier == 'quick' else 600):
+    yield 'experimental_types', {'experimental_types': True, 'seed': r.getrandbits(48),
+                                 'type': r.choice(['DictConfig', 'NamespaceConfig']), 'kind': r.choice(KINDS)}
   for _ in range(80 if tier == 'quick' else 1200):
     yield 'overrides', {'overrides_stage': True, 'seed': r.getrandbits(48),
                         'kind': r.choice(['copy_with', 'deepcopy_with'])}
@@ -134,6 +143,39 @@ def mutable_ids(root, deep=True):
     elif deep and isinstance(v, (list, dict)):
       out[id(v)] = 'container'
   return out
+
+
+def run_experimental_types(case):
+  """The Buildable types of fiddle.experimental (DictConfig, NamespaceConfig): every kind of copy
+  carries arguments AND tags over, like it does for Config."""
+  from fiddle._src.experimental import dict_config, namespace_config
+  r = random.Random(case['seed'])
+  cls = {'DictConfig': dict_config.DictConfig, 'NamespaceConfig': namespace_config.NamespaceConfig}[case['type']]
+  cfg = cls(lr=0.1, steps=r.randint(1, 9), name='n')
+  for arg in r.sample(['lr', 'steps', 'name'], r.randint(1, 3)):
+    fdl.add_tag(cfg, arg, r.choice(targets.TAGS))
+  if r.random() < 0.5:
+    cfg.steps = 99
+  kind = case['kind']
+  obs = {'experimental_types': True, 'kind': kind, 'type': case['type'], 'problems': []}
+  tags_of = lambda c: {k: sorted(t.__name__ for t in ts) for k, ts in c.__argument_tags__.items() if ts}
+  try:
+    cp = make_copy(kind, cfg) if not kind.startswith('cast') else fdl.cast(cls, cfg)
+  except Exception as e:
+    obs['problems'].append(f'raised {type(e).__name__}: {e}'[:160])
+    return obs
+  if type(cp) is not cls:
+    obs['problems'].append(f'the copy is a {type(cp).__name__}')
+  if dict(cp.__arguments__) != dict(cfg.__arguments__):
+    obs['problems'].append(f'arguments differ: {dict(cp.__arguments__)} vs {dict(cfg.__arguments__)}')
+  if tags_of(cp) != tags_of(cfg):
+    obs['problems'].append(f'tags differ: copy {tags_of(cp)}, original {tags_of(cfg)}')
+  try:
+    if repr(fdl.build(cp)) != repr(fdl.build(cfg)):
+      obs['problems'].append('the copy builds something else')
+  except Exception as e:
+    obs['problems'].append(f'build raised {type(e).__name__}')
+  return obs
 
 
 def run_overrides(case):
@@ -189,6 +231,8 @@ def run_overrides(case):
 def execute(case):
   if case.get('overrides_stage'):
     return run_overrides(case), None
+  if case.get('experimental_types'):
+    return run_experimental_types(case), None
   kind = case['kind']
   if case.get('graph'):
     r = random.Random(case['seed'])
@@ -268,7 +312,7 @@ def execute(case):
     obs['n_orig'] = n_orig
     return obs, req
   # flat stage
-  fn = targets.make_fn(case['sig'])
+  fn = targets.make_fn(case['sig'], case.get('species', 'function'))
   try:
     cfg = fdl.Config(fn, *[argstore.to_py(v) for v in case['args']],
                      **{k: argstore.to_py(v) for k, v in case['kwargs']})
@@ -280,6 +324,11 @@ def execute(case):
   except Exception as e:
     return {'copy_raised': type(e).__name__, 'kind': kind}, None
   out = {'init': argstore.observe(cp, with_build=(kind != 'cast_partial')), 'steps': [], 'kind': kind}
+  try:
+    out['callable_kept'] = (cp.__fn_or_cls__ is cfg.__fn_or_cls__) if kind != 'pickle' else \
+        bool(cp.__fn_or_cls__ == cfg.__fn_or_cls__)
+  except Exception as e:
+    out['callable_kept'] = f'raised {type(e).__name__}'
   for op in case['ops']:
     res = argstore.real_step(cp, op)
     out['steps'].append({'res': res, 'state': argstore.observe(cp, with_build=(kind != 'cast_partial'))})
@@ -326,7 +375,7 @@ def build_canon(c):
 
 
 def compare(real, model):
-  if model is None or 'copy_raised' in real or real.get('overrides_stage'):
+  if model is None or 'copy_raised' in real or real.get('overrides_stage') or real.get('experimental_types'):
     return []
   if 'm_heap' in real:
     mh = model.get('deepcopy', model.get('shallow_copy'))
@@ -342,6 +391,10 @@ def compare(real, model):
 
 
 def oracle(case, real):
+  if real.get('experimental_types'):
+    if real['problems']:
+      return {'what': f"{real['kind']} of a {real['type']}: " + real['problems'][0], 'problems': real['problems']}
+    return None
   if real.get('overrides_stage'):
     if real['problems']:
       return {'what': f"{real['kind']} with overrides: " + real['problems'][0], 'problems': real['problems'],
@@ -365,6 +418,9 @@ def oracle(case, real):
     return None
   if real['init'] == 'err':
     return None
+  if real.get('callable_kept', True) is not True:
+    return {'what': f'{kind}: the copy does not configure the callable the original configures (a callable that '
+                    'is an object was cloned)', 'species': case.get('species'), 'observed': real['callable_kept']}
   # the copy reports what the original reported when it was copied
   ci, oi = real['init'], real['orig_init']
   for f in ('view', 'oa', 'oa_all', 'tags') + (() if kind == 'cast_partial' else ('build',)):
@@ -385,6 +441,8 @@ def oracle(case, real):
 
 
 def nontrivial(case, real):
+  if real.get('experimental_types'):
+    return ('experimental_types', real['type'], real['kind'], case['seed'] % 4)
   if real.get('overrides_stage'):
     return ('overrides', real['kind'], tuple(sorted(real['equal_to_current'].items())))
   if 'copy_raised' in real:
